@@ -634,6 +634,8 @@ func cmdCheck(args []string) int {
 	nViol := 0
 	var knownLines []string
 	seenKnown := map[string]bool{}
+	seenClass := map[string]bool{}
+	nDup := 0
 	for i := range allViol {
 		v := &allViol[i]
 		matched := false
@@ -650,6 +652,12 @@ func cmdCheck(args []string) int {
 		if matched {
 			continue
 		}
+		key := v.Class + "|" + v.Violation.Sig
+		if seenClass[key] || len(seenClass) >= 8 {
+			nDup++
+			continue
+		}
+		seenClass[key] = true
 		nViol++
 		path := writeReplay(sc, id, tier, v)
 		fmt.Printf("violation: %s %s\n  %s\n", v.Class, v.Violation.Sig, v.Violation.Message)
@@ -661,6 +669,9 @@ func cmdCheck(args []string) int {
 	}
 	for _, l := range knownLines {
 		fmt.Println(l)
+	}
+	if nDup > 0 {
+		fmt.Printf("(%d further violating runs of the same class and signature not listed)\n", nDup)
 	}
 	wall := time.Since(t0).Seconds()
 	writeEvidence(sc, id, tier, seed, seeds, m, agg, nViol, len(knownLines), wall, instrTests)
